@@ -566,5 +566,15 @@ def r12_coercion_applied_last(chk: Check) -> None:
         chk.undecided("C06.R12", "<discovery>", f"sites={n}", "fewer coercing generators than confirmed by hand")
 
 
+def r13_memo(chk: Check) -> None:
+    from . import shared
+
+    P = chk.project
+    mods = ('transport/requests.py', 'transport/wsgi.py', 'transport/asgi.py', 'transport/prepare.py', 'transport/serialization.py', 'specs/openapi/serialization.py', 'specs/openapi/_hypothesis.py', 'generation/hypothesis/builder.py', 'core/transport.py')
+    fns = [f for m in mods if m in P.by_relpath for f in P.module(m).functions.values() if not isinstance(f.node, ast.Lambda)]
+    shared.memo_key_rule(chk, "C06.R13", fns, {("_set_cache_entry", "data"): "a setter: the value to store is handed in by get(), which computed it for this key", ("_get_body_strategy", "operation"): "a parameter belongs to exactly one operation (stated next to the cache)"},
+                         "MEMO-KEY(anchor modules of this property): the request that is sent is built from THIS case: a cache on the serialisation path keyed by less than what the cached value is computed from sends another case's / another operation's data", floor=0)
+
+
 def rules(tier: str) -> list:  # type: ignore[type-arg]
-    return [r1_registries, r2_content_type, r3_quote_all, r3b_template_ownership, r4_header_writers, r5_cookie_pair, r6_no_truthiness_rewrite, r7_sanitizer_on_copies, r8_worklist_pushes_elements, r9_merge_builds_new_container, r10_json_spelling_in_style_serializers, r11_client_per_call, r12_coercion_applied_last, rfwd_forwarding]
+    return [r1_registries, r2_content_type, r3_quote_all, r3b_template_ownership, r4_header_writers, r5_cookie_pair, r6_no_truthiness_rewrite, r7_sanitizer_on_copies, r8_worklist_pushes_elements, r9_merge_builds_new_container, r10_json_spelling_in_style_serializers, r11_client_per_call, r12_coercion_applied_last, rfwd_forwarding, r13_memo]
